@@ -205,7 +205,15 @@ class _Rename(ast.NodeTransformer):
     def visit_FunctionDef(self, n):
         return n      # nested definitions keep their own scope (free variables of ours are not renamed inside; such helpers are not inlined)
 
-    visit_Lambda = visit_FunctionDef
+    def visit_Lambda(self, n):
+        # the free names of a lambda are names of the enclosing scope: substituted / renamed, except where its parameters shadow them
+        own = {a.arg for a in n.args.args + n.args.kwonlyargs + getattr(n.args, 'posonlyargs', [])}
+        if n.args.vararg or n.args.kwarg:
+            return n
+        inner = _Rename({k: v for k, v in self.names.items() if k not in own}, {k: v for k, v in self.exprs.items() if k not in own})
+        n = copy.copy(n)
+        n.body = inner.visit(n.body)
+        return n
 
 
 def _simple_arg(e):
@@ -214,6 +222,20 @@ def _simple_arg(e):
 
 # ---------------------------------------------------------------------------------------------
 # inlining
+
+def _def_as_lambda(fd):
+    """`def g(a, b): [docstring] return E` (plain positional parameters, no decorators) as `lambda a, b: E`, else None"""
+    a = fd.args
+    if fd.decorator_list or a.vararg or a.kwarg or a.kwonlyargs or a.defaults or getattr(a, 'posonlyargs', None):
+        return None
+    body = [s for s in fd.body if not (isinstance(s, ast.Expr) and isinstance(s.value, ast.Constant))]
+    if len(body) != 1 or not isinstance(body[0], ast.Return) or body[0].value is None:
+        return None
+    if any(isinstance(n, (ast.Yield, ast.YieldFrom, ast.Await, ast.Lambda, ast.FunctionDef)) for n in ast.walk(body[0].value)):
+        return None
+    return ast.copy_location(ast.Lambda(args=ast.arguments(posonlyargs=[], args=[ast.arg(arg=x.arg) for x in a.args], vararg=None, kwonlyargs=[], kw_defaults=[],
+                                                           kwarg=None, defaults=[]), body=body[0].value), fd)
+
 
 class Inliner:
     def __init__(self, func, src=None, depth=2, only=None, skip=()):
@@ -258,6 +280,8 @@ class Inliner:
         for n in walk_no_nested(h):
             if isinstance(n, (ast.Yield, ast.YieldFrom, ast.Await, ast.Global, ast.Nonlocal)):
                 return False
+            if isinstance(n, ast.FunctionDef) and n in h.body and _def_as_lambda(n) is not None:
+                continue        # a local one-expression function: read as the lambda it is (see expr_body)
             if isinstance(n, (ast.FunctionDef, ast.Lambda, ast.ClassDef)):
                 return False
             if isinstance(n, ast.Call) and isinstance(n.func, ast.Name) and n.func.id == h.name:
@@ -338,6 +362,12 @@ class Inliner:
             params = {x.arg for x in h.args.args}
             binding = {}
             for st in body[:-1]:
+                if isinstance(st, ast.FunctionDef) and st.name not in binding and st.name not in params and _def_as_lambda(st) is not None:
+                    lam = _def_as_lambda(st)
+                    own = {x.arg for x in lam.args.args}
+                    lam.body = _Rename({}, {k: v for k, v in binding.items() if k not in own}).visit(clone(lam.body))
+                    binding[st.name] = lam
+                    continue
                 if not (isinstance(st, ast.Assign) and len(st.targets) == 1 and isinstance(st.targets[0], ast.Name) and st.targets[0].id not in binding
                         and st.targets[0].id not in params and _reads_only(st.value)):
                     return None
